@@ -71,6 +71,10 @@ def gen_history(rng, tier):
         # fetching some batches fails (transient KafkaException in get_message_batch): such a batch is never processed, so
         # its end offset must never be committed; what is promised beyond that presupposes batches completing in order
         h['fetch_failures'] = sorted(rng.sample(range(8), rng.choice([1, 1, 2])))
+    if h['reset'] == 'latest' and rng.random() < 0.4:
+        h['reset_given'] = False        # 'auto.offset.reset' left out of the parameters: the documented default is 'latest'
+    if rng.random() < 0.3:
+        h['same_params_dict'] = True    # the restart happens in the same process and re-uses the very same parameter dict
     h['pre_holes'] = [[int(rng.random() < h['hole_rate']) for _ in range(n)] for n in h['pre']]
     return h
 
@@ -89,6 +93,10 @@ def run_incarnation(broker, h, crash_at=None, preload=False):
             broker.log = log
             log.add('KAFKA', 'broker', 'incarnation_start')
             params = {'bootstrap.servers': 'fake', 'group.id': 'g', 'auto.offset.reset': h['reset']}
+            if h.get('reset_given') is False:
+                del params['auto.offset.reset']
+            if h.get('same_params_dict'):
+                params = broker.__dict__.setdefault('_user_params', params)
             kw = {}
             if h['npartitions_arg']:
                 kw['npartitions'] = h['nparts']
